@@ -155,7 +155,11 @@ def build_op_args(name, cfg, w, seed):
             for k_, v_ in w.items():
                 if "n_valid" in k_:
                     nv = ival(w, k_, B)
-            n_ign = B - nv if nv is not None else (1 if B > 1 else 0)
+            B = max(B, 4)
+            x = T([B, V], seed)
+            t = torch.randint(0, V, (B,), generator=g)
+            # the number of ignored targets differs between the two draws (data dependence shows)
+            n_ign = B - nv if nv is not None else (1 + (seed // 1000) % 2)
             n_ign = max(0, min(n_ign, B - 1))
             if n_ign:
                 t[:n_ign] = ii
@@ -281,6 +285,17 @@ def replay_op(rj):
         except Exception as e:
             return True, f"raised {type(e).__name__} instead of ValueError: {e}"
         return True, "no exception for an unknown constraint name"
+    if name == "gelu" and clause in ("value_is_k_times_reference", "k_data_independent", "no_exception_under_precondition") or (name == "gelu" and clause.startswith("grad[")):
+        # `approximate` is an opaque option in the proof: try both of its values on the real code
+        for ap in ("tanh", "none"):
+            for mult in (rval(w, "mult", 1.5), 2.0, 0.5):
+                try:
+                    ma = measure_op(name, cfg, dict(w, mult=str(mult)), seed, {"approximate": ap})
+                except Exception as e:
+                    return True, f"approximate={ap!r} mult={mult}: raised {type(e).__name__}: {e}"
+                sp = ma["k_spread"] if not clause.startswith("grad[") else ma["b"]["input"][1]
+                if ma["k"] is None or sp > 1e-7:
+                    return True, f"approximate={ap!r} mult={mult}: the ratio to F.gelu(x*mult, approximate={ap!r})/mult is not one constant (relative spread {sp:.3g})"
     try:
         m1 = measure_op(name, cfg, w, seed)
         m2 = measure_op(name, cfg, w, seed + 1000)
@@ -291,8 +306,23 @@ def replay_op(rj):
     info = f"k={m1['k']} spread={m1['k_spread']:.3g} k(second draw)={m2['k']} b={m1.get('b')}"
     if clause == "no_exception_under_precondition":
         return False, "no exception; " + info
-    if clause == "value_is_k_times_reference":
-        return (m1["k"] is None or m1["k_spread"] > tol), info
+    if clause == "value_is_k_times_reference" or clause.startswith("body==contract"):
+        bad = m1["k"] is None or m1["k_spread"] > tol
+        if not bad and name in ("rms_norm", "layer_norm"):
+            # rounding is outside the verifier's model (A1): also try low precision / large magnitudes
+            for dt, mag in ((torch.float16, 2000.0), (torch.bfloat16, 1e4), (torch.float16, 1e-3)):
+                a16 = build_op_args(name, cfg, w, seed)
+                a16 = {k_: (v.detach().to(dt) * (mag if k_ == "input" else 1.0) if isinstance(v, torch.Tensor) and v.is_floating_point() else v) for k_, v in a16.items()}
+                import unit_scaling.functional as U_
+
+                o16 = getattr(U_, name)(**a16)
+                env16 = dict(a16, F=F, torch=torch)
+                env16.setdefault("bias", None)
+                r16 = eval(REFS[name]["ref"], env16)
+                k16, sp16 = ratio_stats(o16.float(), r16.float())
+                if k16 is None or sp16 > 5e-2 or abs(k16 - 1) > 5e-2:
+                    return True, f"dtype {dt} |x|~{mag}: ratio to PyTorch {k16} (spread {sp16:.3g}); " + info
+        return bad, info
     if clause == "k_positive":
         return (m1["k"] is None or m1["k"] <= 0), info
     if clause == "k_data_independent":
